@@ -507,6 +507,32 @@ pub fn drive_inputs(a: &Args, w: &Words, budget_bytes: usize, maxlen: usize) {
     let mut rec = GenRec::new(&mut sh);
     rec.fin_every_call = false;
     drive_corner_grid(&mut rec, &mut rng, w, a.tier == "thorough");
+    // dense inputs sized exactly on / one / two over every small block size border, through the
+    // one-shot routes that DECLARE the size (hash_buf; set_fixed + update): every block size that can
+    // be chosen has plenty of pieces, so block hash 2 must come from the next index up
+    for k in 0..=(if a.tier == "thorough" { 8usize } else { 6 }) {
+        for over in 0..=2usize {
+            let size = (192usize << k) + over;
+            let mut data: Vec<u8> = vec![];
+            let lv = (k + 2 + (over % 2)).min(30);
+            while data.len() + 7 <= size {
+                data.extend_from_slice(pw(&mut rng, &w.levels[lv]));
+            }
+            while data.len() < size {
+                data.insert(0, 0);
+            }
+            rec.begin();
+            rec.new_gen(0);
+            rec.set_fixed(0, size as u64, over == 1);
+            rec.update(0, 0, &data);
+            rec.fin(0);
+            rec.hash_buf(0);
+            rec.new_gen(1);
+            rec.update(1, 1, &data);
+            rec.set_fixed(1, size as u64, false);
+            rec.fin(1);
+        }
+    }
     let mut used = 0usize;
     let mut first = true;
     while used < budget_bytes {
@@ -587,6 +613,7 @@ pub fn drive_histories(a: &Args, w: &Words, budget_bytes: usize, maxlen: usize, 
             let wrong = rng.chance(1, 5);
             let mut pos = 0usize;
             let mut clone_live = false;
+            let mut cloned_after_elim = false;
             for (ci, &k) in cuts.iter().enumerate() {
                 if ci == decl_at {
                     declare(&mut rec, &mut rng, data.len() as u64, wrong, MAXSZ);
@@ -598,10 +625,14 @@ pub fn drive_histories(a: &Args, w: &Words, budget_bytes: usize, maxlen: usize, 
                     rec.update(1, form2, &data[pos..pos + k]);
                 }
                 pos += k;
-                if !clone_live && rng.chance(1, 12) {
+                // clone now and then; in particular soon after the engine has advanced its lower
+                // bound (the guarded probe is only used to AIM the clone, not to judge anything)
+                let advanced = rec.gens[0].as_ref().unwrap().verif_probe().0 > 0;
+                if !clone_live && (rng.chance(1, 12) || (advanced && !cloned_after_elim && rng.chance(1, 2))) {
                     rec.clone_gen(0, 1);
                     rec.fin(1);
                     clone_live = true;
+                    cloned_after_elim |= advanced;
                 } else if clone_live && rng.chance(1, 10) {
                     clone_live = false;
                 }
@@ -803,16 +834,18 @@ pub fn drive_sizes(a: &Args, w: &Words, thorough: bool) {
                 suf.extend_from_slice(&[0u8; 7]);
             }
             let nz = total - suf.len() as u64;
-            rec.begin();
-            rec.zeros(0, nz);
-            if rng.chance(1, 3) {
-                rec.set_fixed(0, total, false);
+            for declared in [false, true] {
+                rec.begin();
+                rec.zeros(0, nz);
+                if declared {
+                    rec.set_fixed(0, total, false);
+                }
+                let c1 = rng.range(0, suf.len());
+                rec.update(0, 0, &suf[..c1]);
+                rec.fin(0);
+                rec.update(0, rng.below(6) as u8, &suf[c1..]);
+                rec.fin(0);
             }
-            let c1 = rng.range(0, suf.len());
-            rec.update(0, 0, &suf[..c1]);
-            rec.fin(0);
-            rec.update(0, rng.below(6) as u8, &suf[c1..]);
-            rec.fin(0);
         }
     }
     // (5) the small-input query
